@@ -173,7 +173,7 @@ def modelOp (h : Heap) (id : Nat) (text : String) (reshape postCopy : Bool) : He
 def stepLive (D : Kind → CopyDesc) (w : World) (line : String) : World × String :=
   match words line with
   | "scenario" :: _tag :: kname :: _ =>
-    match Kind.ofName (if kname = "comp" then "gzip" else if kname = "wfile" then "file" else kname) with
+    match Kind.ofName (if kname = "comp" then "gzip" else if kname = "wfile" ∨ kname = "nocopy" then "file" else kname) with
     | none => (World.init, "bad-op")
     | some k0 =>
       -- `comp <name> <mode>`: the concrete compressor is the 4th word
@@ -190,7 +190,8 @@ def stepLive (D : Kind → CopyDesc) (w : World) (line : String) : World × Stri
       let (h, t2) := construct h k f c
       -- a file opened for writing has a copy hook that refuses (`stdio_copy`: `!readonly` → NULL): as far as `sqfs_copy`
       -- is concerned the object has no copy hook
-      let h := if kname = "wfile" then [o, t1, t2].foldl (fun (h : Heap) id => match h.objs id with
+      -- `nocopy`: a library object created with `sqfs_object_init(obj, destroy, NULL)` (an input stream): `copy == NULL`
+      let h := if kname = "wfile" ∨ kname = "nocopy" then [o, t1, t2].foldl (fun (h : Heap) id => match h.objs id with
           | some ob => { h with objs := upd h.objs id (some { ob with copy := false }) }
           | none => h) h else h
       (⟨h, k, f, c, usesEnv k, [some o, none, some t1, some t2], true⟩, "scenario")
